@@ -210,9 +210,24 @@ func (fc *FnCtx) fieldOf(xv Val, f string, h *HeapState) Val {
 				l := fc.fieldLoc(xv.C[0], st, i)
 				if _, isStruct := l.T.Underlying().(*types.Struct); isStruct {
 					// embedded struct: return a pointer to it so that further field selections work
-					return Val{K: KPtr, T: types.NewPointer(l.T), C: []string{l.ref}}
+					sub := Val{K: KPtr, T: types.NewPointer(l.T), C: []string{l.ref}}
+					if !fc.isAllocConst(xv.C[0]) {
+						// a part of an object that is not one of this function's unescaped locals is none of them either
+						fc.noAliasLocal(sub)
+					}
+					return sub
 				}
-				return fc.loadLoc(h, l)
+				lv := fc.loadLoc(h, l)
+				if ti := fc.typeInv(lv); ti != "" && ti != "true" {
+					// whatever the heap holds at a typed location is a well-formed value of that type
+					fc.assumeHere(ti)
+				}
+				switch lv.K {
+				case KPtr, KSlice, KIface:
+					// an address found in the heap is never that of a local whose address was not handed out
+					fc.noAliasLocal(lv)
+				}
+				return lv
 			}
 		}
 		// promoted field through embedded struct
